@@ -846,3 +846,23 @@ def _reuse_placement(repo, ob, failure):
 
 
 GENERATORS.insert(0, ("C18.place.", _reuse_placement))
+
+
+def _deep_nesting(repo, ob, failure):
+    """deeply nested expressions / long chains of variable references give a result or an error, never a crash"""
+    n = 3000
+    chain = '<svg>' + "".join('<var v%d="$v%d + 1"/>' % (i, i - 1) for i in range(n - 1, 0, -1)) + '<var v0="1"/><text text="{{$v%d}}"/></svg>' % (n - 1)
+    docs = [('parentheses x%d' % n, '<svg><text text="{{' + '(' * n + '1' + ')' * n + '}}"/></svg>'),
+            ('unary minus x%d' % (2 * n), '<svg><text text="{{' + '-' * (2 * n) + '1}}"/></svg>'),
+            ('function calls x%d' % n, '<svg><text text="{{' + 'abs(' * n + '1' + ')' * n + '}}"/></svg>'),
+            ('chain of %d lazily evaluated variables' % n, chain)]
+    for what, doc in docs:
+        r = run_svgdx(repo, doc, timeout=20)
+        if r["timeout"] or r["rc"] not in (0, 1, 2):
+            return {"input": doc[:120] + "...", "input_full": doc, "observed": "%s: process %s" % (what, "hangs" if r["timeout"] else "dies with status %s: %s" % (r["rc"], r["err"][-120:])),
+                    "expected": "a result or an error"}
+    return None
+
+
+GENERATORS.insert(0, ("C01.expr.nest", _deep_nesting))
+GENERATORS.insert(0, ("C01.expr.depth", _deep_nesting))
